@@ -110,6 +110,9 @@ def catalogue():
     # ---------------- pipes
     @dev("p_cv", "p2kind")
     def _(wn): wn.get_link("p2").check_valve = True
+    @dev("p_cv_closed", "p2kind")          # a check-valve pipe that starts closed (the API allows both at once)
+    def _(wn):
+        wn.get_link("p2").check_valve = True; wn.get_link("p2").initial_status = LS.Closed
     @dev("p_closed", "p2kind")
     def _(wn): wn.get_link("p2").initial_status = LS.Closed
     @dev("p_minor")
@@ -447,7 +450,7 @@ NAMED_PAIRS = [("o_reaction", "p_coeffs"), ("o_reaction", "t_bulk"), ("o_qual_ch
                ("o_time", "z_time0"), ("o_pdd", "z_elev0"), ("o_qual_chem", "z_source0"), ("o_energy", "z_pump_speed0")]
 
 
-NOT_IN_INP = ("j_leak", "t_leak", "r_relative", "k_junction_head", "j_leak_removed", "t_leak_removed", "pat_nowrap")      # WNTR-only: no place in the INP format
+NOT_IN_INP = ("j_leak", "t_leak", "r_relative", "k_junction_head", "j_leak_removed", "t_leak_removed", "pat_nowrap", "p_cv_closed")      # WNTR-only: no place in the INP format
 
 
 def enumerate_specs(dmax, keep=None):
